@@ -26,7 +26,7 @@ Qed.
 
 (* ---- native model (LtoR) = reference ---- *)
 Definition fmap (f : nfault) : fault :=
-  match f with NFAssert => FAssert | NFSigfpe => FDivZero | NFSigfpeOv => FDivOverflow | NFOob => FOob end.
+  match f with NFAssert => FAssert | NFSigfpe => FDivZero | NFSigfpeOv => FDivOverflow | NFOob => FOob | NFStrDomain => FStrDomain end.
 Definition rmap {A B} (g : A -> B) (r : nres A) : res B :=
   match r with
   | NOk a out => Ok (g a) out
@@ -86,6 +86,16 @@ Proof.
   - destruct a, b; reflexivity.
   - destruct a, b; reflexivity.
 Qed.
+
+Lemma str1_same o v out : rmap (fun x => x) (of_nopres (nat_str1 o v) out) = of_opres (eval_str1 o v) out.
+Proof. destruct o, v; reflexivity. Qed.
+Lemma str2_same o a b out : rmap (fun x => x) (of_nopres (nat_str2 o a b) out) = of_opres (eval_str2 o a b) out.
+Proof.
+  destruct o, a, b; try reflexivity; cbn [nat_str2 eval_str2];
+    try (destruct (concat_v s s0); reflexivity); destruct (char_at_v s z); reflexivity.
+Qed.
+Lemma substr_same a b c out : rmap (fun x => x) (of_nopres (nat_substr a b c) out) = of_opres (eval_substr a b c) out.
+Proof. destruct a, b, c; try reflexivity. cbn [nat_substr eval_substr]. destruct (substr_v s z z0); reflexivity. Qed.
 
 Lemma bind_params_same ps vs : nat_bind_params ps vs = bind_params ps vs.
 Proof.
@@ -152,6 +162,9 @@ Proof.
         unfold nat_at. destruct a as [z|b| |s|l]; try reflexivity. destruct a0 as [k|b| |s|l']; try reflexivity.
         destruct (arr_get l k); reflexivity.
       * (* array_length *) rewrite <- IHe. bindstep. destruct a as [z|b| |s|l]; reflexivity.
+      * (* string builtins *) rewrite <- IHe. bindstep. apply str1_same.
+      * rewrite <- IHe. bindstep. rewrite <- IHe. bindstep. apply str2_same.
+      * rewrite <- IHe. bindstep. rewrite <- IHe. bindstep. rewrite <- IHe. bindstep. apply substr_same.
     + (* statements *)
       red; intros genv en s out. destruct s; cbn [nat_stmt exec_stmt].
       * reflexivity.
